@@ -152,7 +152,9 @@ func (g *egen) strList(d int) string {
 	if d <= 0 {
 		return r.pick("xs[*].v", "xs.*.v", "strs", "c_xs[*].v")
 	}
-	switch r.n(22) {
+	switch r.n(23) {
+	case 22:
+		return fmt.Sprintf("convert(%s, %s)", g.strList(d-1), r.pick("list(string)", "list(any)", "any"))
 	case 0, 1, 2:
 		return g.outerList(d-1) + "[*].v"
 	case 3:
@@ -307,7 +309,9 @@ func (g *egen) boolean(d int) string {
 
 func (g *egen) anyExpr(d int) string {
 	r := g.r
-	switch r.n(14) {
+	switch r.n(15) {
+	case 14:
+		return fmt.Sprintf("convert(%s, %s)", g.outerList(d-1), r.pick("list(object({ v = string, n = number }))", "list(any)", "set(object({ v = string }))", "map(string)"))
 	case 0, 1, 2, 3:
 		return g.strList(d)
 	case 4, 5:
@@ -598,6 +602,7 @@ var opKinds = []string{
 	"expand_decode", "expand_decode", "shared_expand_decode", "shared_expand_decode",
 	"dec_vars", "implied_type", "expand_vars",
 	"gohcl", "gohcl_expr", "static", "static", "merge_content", "spec_misc", "gen_decode", "gen_decode",
+	"at_pos", "type_defaults",
 }
 
 // genCase generates a complete case from a run seed.  profile selects the
@@ -606,7 +611,7 @@ var opKinds = []string{
 // case runs its concurrent phase before anything else has used the library in
 // this process (see runCase), so that first uses of process-global state
 // (package-level caches and lazily initialised tables) happen concurrently.
-var coldKinds = []string{"gen_decode", "decode", "decode", "partial_decode", "expand_decode", "shared_expand_decode", "gohcl", "gohcl", "dec_vars", "expand_vars", "spec_misc", "merge_content", "implied_type"}
+var coldKinds = []string{"gen_decode", "decode", "decode", "partial_decode", "expand_decode", "shared_expand_decode", "gohcl", "gohcl", "dec_vars", "expand_vars", "spec_misc", "merge_content", "implied_type", "at_pos", "type_defaults"}
 
 func genCase(seed uint64, profile string, deep, cold bool) *Case {
 	r := &rnd{s: zzsim.Mix(seed, 1)}
